@@ -88,6 +88,7 @@ def child(case):
                                 if sib[0] in lst:
                                     lst.remove(sib[0])
                             w.pending_cb.append(sib[0])          # make_block pops from the end
+                            w.protected.add(sib[0].hash)          # the new branch's own random txs leave its outputs alone
                             w.coll_prob = 1.0
                         tip = w.fork(d, d, rng=eng.rng, ntx=3)
                         w.coll_prob = 0.5
